@@ -125,6 +125,20 @@ def r15_1(run):
                         for t in n.targets:
                             if (isinstance(t, ast.Attribute) and t.attr == a) or (isinstance(t, ast.Subscript) and const_str(t.slice) == a):
                                 restored = True
+            # literal keys that are members of a class-level key table are covered by the table
+            def table_members(ks):
+                out = set()
+                for k_ in ks:
+                    if k_.startswith("<table:"):
+                        nm = k_[7:-1].split(".")[0]
+                        for kc in ix.mro(ci):
+                            v_ = kc.attrs.get(nm)
+                            if isinstance(v_, ast.Dict):
+                                out |= {const_str(x) for x in v_.keys if const_str(x)}
+                                break
+                return out
+            keys_w -= table_members(keys_w)
+            keys_r -= table_members(keys_r)
             ok = a in excl and custom and restored and keys_w and keys_w == keys_r
             run.ob("%s|%s|non-native-handled" % (ci.name, a), bool(ok),
                    "attribute %s holds a %s object (not JSON-native): it is excluded from the generic dump and a matching "
@@ -243,4 +257,98 @@ def r15_3(run):
     run.floor(8)
 
 
-RULES = [("R15.1", r15_1), ("R15.2", r15_2), ("R15.3", r15_3)]
+def r15_4(run):
+    """loading runs convert_format on every file: for a net written by the current version it must be the identity.  Everything
+    convert_format does before its `format_version >= current` return has to be guarded by the *absence* of what it adds (a test
+    on the value can match a legitimate value, e.g. the sector 'None')"""
+    from ..arrnf import ANF, C, base_of, key as tkey, norm_cond, show as tshow, walk
+    ix = run.index
+    cf = ix.func(CF + ".convert_format")
+    run.analysed(cf)
+    inl = {g.qualname for g in ix.module(CF).functions.values() if g.name != "convert_format"}
+    ps = cf.params()
+    r = ANF(ix, cf, inline=inl, param_alias={ps[0]: "net"}).run()
+    rets = [e for e in r.events if e.kind == "return"]
+    early = [e for e in rets if e.cond and any(x[0] == "cmp" and x[1] in (">=", "<=", "<", ">", "==") for c, _ in e.cond for x in walk(c))]
+    run.ob("convert_format|early-return-for-current-format", len(early) >= 1 and early[0].value == ("n", "net"),
+           "convert_format returns the net unchanged when its format version is current", run.where(cf, cf.node))
+    if not early:
+        return
+    pre = [e for e in r.events if e.kind == "store" and e.seq < early[0].seq and tkey(base_of(e.base)) == tkey(("n", "net"))]
+    run.ob("convert_format|pre-guard-stores-found", len(pre) >= 2, "stores executed for every loaded net: %d" % len(pre), run.where(cf, cf.node))
+    for e in pre:
+        k = e.index[0]
+        if k[0] != "c":
+            raise AnalysisError("convert_format stores under a computed key before the version guard: %s" % tshow(k))
+        name = k[1]
+        absent = False
+        for c, pol in e.cond:
+            c, pol = norm_cond(c, pol)
+            if c[0] == "cmp" and c[1] == "in" and c[2] == C(name) and c[3] == ("n", "net") and not pol:
+                absent = True
+            if c[0] == "cmp" and c[1] == "not in" and c[2] == C(name) and c[3] == ("n", "net") and pol:
+                absent = True
+            if c[0] == "call" and c[1] == ("x", "builtins.hasattr") and c[2] == (("n", "net"), C(name)) and not pol:
+                absent = True
+            if c[0] == "cmp" and c[1] in ("is", "==") and C(None) in (c[2], c[3]) and pol and any(
+                    x[0] == "call" and x[1] == ("attr", ("n", "net"), "get") and x[2][:1] == (C(name),) for x in (c[2], c[3])):
+                absent = True
+        run.ob("convert_format|only-adds-what-is-absent|%s" % name, absent,
+               "net[%r] is set by convert_format only when the loaded net does not have it (so a net of the current format is "
+               "returned as saved)" % name, run.where(cf, e.node),
+               detail="conditions: %s" % "; ".join("%s%s" % ("" if p_ else "not ", tshow(c)[:100]) for c, p_ in e.cond))
+    # add_default_components is called without overwrite
+    adc = [c for c in r.calls() if c.fn[0] == "f" and c.fn[1].endswith(".add_default_components")]
+    ok = len(adc) == 1 and dict(adc[0].kw).get("overwrite", adc[0].args[1] if len(adc[0].args) > 1 else C(False)) == C(False)
+    run.ob("convert_format|default-components-not-overwritten", ok, "existing component tables are not overwritten on load", run.where(cf, cf.node))
+    run.floor(5)
+
+
+CONVERSIONS = {"item", "tolist", "float", "int", "str", "bool", "list"}
+
+
+def r15_5(run):
+    """state that a to_dict copies out of a foreign (library) object's private attributes has no type contract: it is
+    JSON-encodable only if the method normalises it explicitly (.item() / .tolist() / float() ...) before returning"""
+    ix = run.index
+    n = 0
+    for ci in _serialisable_classes(ix):
+        td = _own_method(ix, ci, "to_dict")
+        if td is None:
+            continue
+        run.analysed(td)
+        private = []
+        for x in ast.walk(td.node):
+            # {k: <obj>.__dict__[k] for k in <table>.keys()}
+            if isinstance(x, ast.DictComp) and isinstance(x.value, ast.Subscript) and isinstance(x.value.value, ast.Attribute) \
+                    and x.value.value.attr == "__dict__" and U(x.value.value.value) not in ("self",):
+                it = x.generators[0].iter
+                tbl = it.func.value if isinstance(it, ast.Call) and isinstance(it.func, ast.Attribute) and it.func.attr == "keys" else it
+                if isinstance(tbl, ast.Attribute) and U(tbl.value) in ("self", "cls"):
+                    v = None
+                    for k in ix.mro(ci):
+                        if tbl.attr in k.attrs:
+                            v = k.attrs[tbl.attr]
+                            break
+                    if isinstance(v, ast.Dict):
+                        private += [(const_str(kk), x) for kk in v.keys if const_str(kk) and const_str(kk).startswith("_")]
+                        continue
+                raise AnalysisError("%s.to_dict copies foreign __dict__ entries over a key table that is not a class-level dict" % ci.name)
+            if isinstance(x, ast.Subscript) and isinstance(x.value, ast.Attribute) and x.value.attr == "__dict__" \
+                    and U(x.value.value) != "self" and const_str(x.slice) and const_str(x.slice).startswith("_"):
+                private.append((const_str(x.slice), x))
+        for key_, node in private:
+            n += 1
+            conv = False
+            for st in ast.walk(td.node):
+                if isinstance(st, ast.Assign) and isinstance(st.targets[0], ast.Subscript) and const_str(st.targets[0].slice) == key_ \
+                        and isinstance(st.value, ast.Call) and callee_name(st.value) in CONVERSIONS:
+                    conv = True
+            run.ob("%s|to_dict|private-foreign-state-normalised|%s" % (ci.name, key_), conv,
+                   "%s.to_dict exports the private attribute %s of a library object; it is converted to a JSON-native value "
+                   "before it is returned" % (ci.name, key_), run.where(td, node))
+    run.ob("foreign-private-exports-found", n >= 1, "to_dict methods exporting private library state: %d" % n, "src/pandapipes")
+    run.floor(2)
+
+
+RULES = [("R15.1", r15_1), ("R15.2", r15_2), ("R15.3", r15_3), ("R15.4", r15_4), ("R15.5", r15_5)]
